@@ -9,7 +9,8 @@ import ThriftVerif.Props.C16
 #print axioms Props.C16.consts_typedefs_reachable
 #print axioms Props.C16.method_filter
 #print axioms Props.C16.trim_resolves_partial
-#print axioms Props.C16.base_service_dropped
+#print axioms Props.C16.base_service_kept_regression
+#print axioms Props.C16.repaired_witnesses
 #print axioms Props.C16.not_idempotent_with_methods
 #print axioms Props.C16.fuel_independent
 #print axioms Props.C16.bindings_preserved
